@@ -162,6 +162,12 @@ func init() { rand.Reader = constReader{} }
 // Ops is the alphabet.
 var Ops = []Op{
 	{"Scalar.Random", func(sh *Shared) []byte { return rawScalar(big.NewInt(9)).Random().Encode() }},
+	// receivers that are the affine generator (what Base() returns, Z = 1): a fixed-base table or any other
+	// "this is G" fast path - typically built lazily on first use - is only reached through them
+	{"Base().Multiply(S1)", func(sh *Shared) []byte { return secp256k1.Base().Multiply(sh.S1).Encode() }},
+	{"Base().Multiply(S2)", func(sh *Shared) []byte { return secp256k1.Base().Multiply(sh.S2).Encode() }},
+	{"Base().Multiply(S3=9)", func(sh *Shared) []byte { return secp256k1.Base().Multiply(sh.S3).Encode() }},
+	{"Base().Add(E1).Double", func(sh *Shared) []byte { return secp256k1.Base().Add(sh.E1).Double().Encode() }},
 	{"HashToScalar(M,D[:18])", func(sh *Shared) []byte { return secp256k1.HashToScalar(sh.M, sh.D18).Encode() }},
 	{"HashToScalar(M,D[:20])", func(sh *Shared) []byte { return secp256k1.HashToScalar(sh.M, sh.D20).Encode() }},
 	{"HashToScalar(M,Dlong)", func(sh *Shared) []byte { return secp256k1.HashToScalar(sh.M, sh.DLong).Encode() }},
